@@ -38,13 +38,8 @@ KERNEL_SAMPLE = {"quick": 150, "thorough": 1200}
 KERNEL_MAXLEN = 4000
 TRUSTED_BASE = ["lib/scheme_ref.py: reference interpreter written from R7RS (an oracle used to classify outputs, not a proof)"]
 
-MANIFEST_PENDING = dict(
-    text="Coq theorems (coq/Props/C02.v, written by the integrator) over the hand-written model of the compiler's "
-         "free-symbol analysis, environment maps and the VM's closure/activation environments (innermost binding wins, "
-         "closures of one activation share a location, activations are separate, bindings survive their creator); this "
-         "module ties the model to /repo by exhaustively enumerated scope skeletons (up to 4 nested procedures x 3 names, "
-         "within stated caps) and random deeper ones, three-way (implementation / extracted model / vm_compute "
-         "sub-sample), and checks the implementation's logged reads against an independent reference interpreter.",
+MANIFEST = dict(
+    text="Coq theorems (coq/Props/C02.v): compile-time resolution of a name in a lambda built from its enclosing lambda — own parameter first, then internal definition, then the enclosing lambda's lexical binding, else global (binding_location over EnvironmentMap::new_from_iof, all argument lists); run-time: closure environment slots are pointers to the creating activation's locations, loads/stores go through exactly one location, an assignment through one name is visible through every name of the same location. OPEN: the whole-machine flatness invariant of locations. Tie: exhaustive/random scope skeletons, three-way differential + independent reference interpreter as oracle.",
     design="DESIGN.md section 5 C02",
     note="The theorems are in coq/Props/C02.v (integrator); until they land that file holds a placeholder statement. "
          "The reference interpreter is an ORACLE for classifying the implementation's output, not a proof. The "
